@@ -719,6 +719,10 @@ impl Session {
             Err(_) => return,
         };
 
+        if self.peers.contains_key(&addr) {
+            return;
+        }
+
         let mut peer_handler = PeerHandler::new(
             addr.clone(),
             self.own_id,
